@@ -258,7 +258,13 @@ def _rel(t, T):
     elif rel == "vector":
         ws = t["vector"]
         i = t["index"]
-        bb = call(g0, wavelength=np.array(ws))
+        if t.get("reuse_buffer"):
+            buf = np.array([w * 1.5 + 0.1 for w in ws], dtype=float)
+            call(g0, wavelength=buf)           # the buffer's earlier contents
+            buf[:] = ws
+            bb = call(g0, wavelength=buf)
+        else:
+            bb = call(g0, wavelength=np.array(ws))
         a = call(g0, wavelength=ws[i])
         ev["a"] = out7(a)
         ev["b"] = out7(bb, i)
